@@ -86,6 +86,7 @@ type cobj struct {
 	Batch  []string               // batch operations (PutAll): in the race-detector programs only (a batch is not ONE atomic call)
 	Raw    interface{}            // the real collection (its lock is read from outside by the gated histories)
 	Gate   *gate                  // where the user-supplied functions of the calls of this object report to (gate.go)
+	Herd   bool                   // queues: every history is of shape "herd" (genHerd)
 }
 
 func (o *cobj) has(n string) bool {
@@ -251,8 +252,22 @@ func sources() []source {
 		capacity := []int{0, 2}[variant%2]
 		return func() *cobj { return newDoubleQueueObj(capacity) }
 	}})
+	// the same two queues once more, every history of shape "herd": several consumers parked in the BLOCKING
+	// dequeue before the first element arrives, then fewer elements per wake-up than waiters (appended last: the
+	// case numbers of the sources above stay what they were)
+	if !raceMode {
+		out = append(out, source{"RequestQueue", func(r *rand.Rand, variant int) func() *cobj {
+			return func() *cobj { co := newQueueObj(0); co.Herd = true; return co }
+		}})
+		out = append(out, source{"RequestDoubleQueue", func(r *rand.Rand, variant int) func() *cobj {
+			return func() *cobj { co := newDoubleQueueObj(0); co.Herd = true; return co }
+		}})
+	}
 	return out
 }
+
+// stamped histories of the herd sources: this many times the usual number of cases (short, cheap histories)
+const herdMult = 10
 
 func elemOf(x interface{}) []int {
 	switch v := x.(type) {
@@ -510,6 +525,9 @@ func genProgram(r *rand.Rand, co *cobj) *program {
 	switch {
 	case len(directedOps) > 0:
 		genDuel(r, co, p, mk)
+	case co.Herd:
+		p.Procs = 0
+		genHerd(r, co, p, mk)
 	case !co.Unique && co.NK >= growPool/2:
 		genGrow(r, co, p)
 	case co.Get != "" && co.Cap == 0 && x < 4:
@@ -694,6 +712,72 @@ func genBlock(r *rand.Rand, co *cobj, p *program, mk func(string) pop) {
 	p.Threads = append(p.Threads, prod...)
 }
 
+// herd: 2-3 consumers, each in ONE (sometimes two) blocking dequeues and nothing else, all parked on the
+// empty unbounded queue before the single producer (which starts late) brings the first element; the
+// producer then puts one element at a time -- every put wakes ALL waiters for ONE element -- with a pause
+// between the puts, so that the waiters that found nothing are parked again before the next one; in all
+// at least as many elements as there are dequeues of any kind (every blocking call is served whatever the
+// schedule).  Sometimes a further goroutine takes without waiting (it may answer "nothing"; a blocking
+// dequeue may not: the model gives it no linearization point on an empty queue).
+func genHerd(r *rand.Rand, co *cobj, p *program, mk func(string) pop) {
+	p.Shape = "herd"
+	put := func() pop { return mk(co.Puts[r.Intn(len(co.Puts))]) }
+	if r.Intn(3) > 0 {
+		// churn: three consumers, each in 4-10 blocking dequeues back to back, and one producer that brings exactly
+		// as many elements one after the other, yielding in between: the queue is empty most of the time, a consumer
+		// that comes back with an element re-enters while the others are being woken for the next one
+		g := 4 + r.Intn(7)
+		for t := 0; t < 3; t++ {
+			var ops []pop
+			for i := 0; i < g; i++ {
+				ops = append(ops, mk(co.Get))
+			}
+			p.Threads = append(p.Threads, ops)
+		}
+		var prod []pop
+		for i := 0; i < 3*g; i++ {
+			op := put()
+			op.Pause = -1 - r.Intn(3) // that many yields
+			prod = append(prod, op)
+		}
+		p.Threads = append(p.Threads, prod)
+		return
+	}
+	nc := 2 + r.Intn(2) // the trace specification has four processes: 2-3 consumers, the producer, sometimes a taker
+	takes := 0
+	for t := 0; t < nc; t++ {
+		ops := []pop{mk(co.Get)}
+		takes++
+		if r.Intn(4) == 0 {
+			ops = append(ops, mk(co.Get))
+			takes++
+		}
+		p.Threads = append(p.Threads, ops)
+	}
+	if nc == 2 && r.Intn(3) == 0 {
+		var ops []pop
+		for i, n := 0, 1+r.Intn(2); i < n; i++ {
+			op := mk(co.Get[:1] + "GetNoWait")
+			op.Pause = 150 + r.Intn(400)
+			ops = append(ops, op)
+			takes++
+		}
+		p.Threads = append(p.Threads, ops)
+	}
+	var prod []pop
+	for i, n := 0, takes+r.Intn(2); i < n; i++ {
+		op := put()
+		switch {
+		case i == 0:
+			op.Pause = 150 + r.Intn(350)
+		case r.Intn(4) > 0:
+			op.Pause = 20 + r.Intn(200)
+		}
+		prod = append(prod, op)
+	}
+	p.Threads = append(p.Threads, prod)
+}
+
 // how long a whole history may take
 var historyWatchdog = 15 * time.Second
 
@@ -752,7 +836,7 @@ func runProgram(co *cobj, p *program, stamped bool, r *rand.Rand) (log []Ev, pan
 		delays[t] = make([]int, len(p.Threads[t]))
 		for i := range delays[t] {
 			x := r.Intn(8)
-			if p.Shape == "duel" && r.Intn(4) > 0 { // a duel is about calls that meet: mostly back to back
+			if (p.Shape == "duel" && r.Intn(4) > 0) || p.Shape == "herd" { // a duel is about calls that meet: mostly back to back
 				x = 0
 			}
 			switch {
@@ -764,7 +848,7 @@ func runProgram(co *cobj, p *program, stamped bool, r *rand.Rand) (log []Ev, pan
 			default:
 				delays[t][i] = 50 + r.Intn(200)
 			}
-			if d := p.Threads[t][i].Pause; d > 0 {
+			if d := p.Threads[t][i].Pause; d != 0 {
 				delays[t][i] = d
 			}
 		}
@@ -826,7 +910,9 @@ func runProgram(co *cobj, p *program, stamped bool, r *rand.Rand) (log []Ev, pan
 				}
 			} else if dl != nil {
 				if d := dl[i]; d < 0 {
-					runtime.Gosched()
+					for ; d < 0; d++ {
+						runtime.Gosched()
+					}
 				} else if d > 0 {
 					time.Sleep(time.Duration(d) * time.Microsecond)
 				}
@@ -873,12 +959,24 @@ func runProgram(co *cobj, p *program, stamped bool, r *rand.Rand) (log []Ev, pan
 		}
 		return out
 	}
-	if p.Max > 0 {
-		co.SetMax(p.Max)
-	}
-	if !runList(len(p.Threads), 0, p.Prefix, nil) {
-		log = merge()
-		return log, panics, true
+	// the prefix runs on a goroutine of its own under the single-call watchdog: a call of the prefix
+	// that leaves the instance lock taken parks the next one for ever -- the history then ends as one
+	// that did not come back (Timeout), like a hang among the concurrent goroutines
+	pre := make(chan bool, 1)
+	go func() {
+		if p.Max > 0 {
+			co.SetMax(p.Max)
+		}
+		pre <- runList(len(p.Threads), 0, p.Prefix, nil)
+	}()
+	select {
+	case ok := <-pre:
+		if !ok {
+			log = merge()
+			return log, panics, true
+		}
+	case <-time.After(watchdog + time.Duration(len(p.Prefix))*time.Millisecond):
+		return nil, 0, false
 	}
 	var wg sync.WaitGroup
 	for t := range p.Threads {
